@@ -59,7 +59,9 @@ class Gen:
             return r.choice(CAPS)
         if c < 0.76:
             # identifiers OUTSIDE the theorem's domain (not UpperCamelCase): nothing is judged there, but model and real code must still
-            # agree on them (seeded C02_d: Swift's raw-value decision for `_2fa` renamed to "2fa")
+            # agree on them (seeded C02_d: Swift's raw-value decision for `_2fa` renamed to "2fa"; fix 31 of /repo: a String-backed enum
+            # prints `case _1st` for `_1st` - `_` in front of the digit-initial camelCased name, no raw value, wire name `_1st` - where the
+            # unrepaired code printed `case 1st = "_1st"`: the correspondence between model and real output reports that tree)
             return r.choice(ODD_IDENTS)
         n = r.randint(0, 7)
         return r.choice(ALPHA).upper() + ''.join(r.choice(ALPHA + ALPHA.upper() + '0123456789') for _ in range(n))
